@@ -5,7 +5,9 @@ package main
 // (bodies, xattr values, expiries) and order (CAS ranks, computed in trace.go).
 
 import (
+	"crypto/sha1"
 	"encoding/binary"
+	"encoding/hex"
 	"encoding/json"
 	"fmt"
 	"hash/crc32"
@@ -37,6 +39,7 @@ type bodyInterner struct {
 	mu   sync.Mutex
 	ids  map[string]string
 	list []json.RawMessage
+	toks []string
 }
 
 var bodies = &bodyInterner{ids: map[string]string{}}
@@ -58,9 +61,20 @@ func (b Body) MarshalJSON() ([]byte, error) {
 	defer bodies.mu.Unlock()
 	id, ok := bodies.ids[string(js)]
 	if !ok {
-		id = "b" + strconv.Itoa(len(bodies.list))
+		// tokens are content hashes, so every process uses the same token for the same body
+		// (b0 = no body and b1 = no macro are fixed: the trace specification names them)
+		switch b.K {
+		case "none":
+			id = "b0"
+		case "nomacro":
+			id = "b1"
+		default:
+			sum := sha1.Sum(js)
+			id = "b" + hex.EncodeToString(sum[:6])
+		}
 		bodies.ids[string(js)] = id
 		bodies.list = append(bodies.list, js)
+		bodies.toks = append(bodies.toks, id)
 	}
 	return json.Marshal(id)
 }
@@ -74,7 +88,7 @@ func WriteBodyTable(path string) error {
 	defer bodies.mu.Unlock()
 	m := map[string]json.RawMessage{}
 	for i, js := range bodies.list {
-		m["b"+strconv.Itoa(i)] = js
+		m[bodies.toks[i]] = js
 	}
 	out, _ := json.Marshal(m)
 	return os.WriteFile(path, out, 0644)
